@@ -195,6 +195,21 @@ func (r *runner) mutations(t template, outsider *holder, nFlips, nByteFlips int,
 	})
 	add("extra-signature", func() []byte { return enc(r.build(t.body, append(r.specs(t.ids), r.spec(outsider))...)) })
 	add("duplicated-signature", func() []byte { return enc(r.build(t.body, append(r.specs(t.ids), r.spec(t.ids[0]))...)) })
+	if len(t.body.Msgs) > n {
+		// one signature per message instead of one per distinct signer
+		add("signature-per-message", func() []byte {
+			var sp []sspec
+			for _, msg := range t.body.Msgs {
+				a := msg.GetSigners()[0]
+				for _, h := range t.ids {
+					if acctAddr(h) == a {
+						sp = append(sp, r.spec(h))
+					}
+				}
+			}
+			return enc(r.build(t.body, sp...))
+		})
+	}
 	if n >= 2 {
 		add("signatures-rotated", func() []byte {
 			tx := r.build(t.body, r.specs(t.ids)...)
